@@ -341,6 +341,12 @@ func lookupIntConst(x *Ctx, rel, name string) (int64, bool) {
 // arguments (two levels), struct fields all their writes in the repository.
 // Values read out of maps, slices, channels or other calls do not derive.
 func (x *Ctx) mustDerive(v ssa.Value, pred func(ssa.Value) bool) bool {
+	return x.mustDeriveOpt(v, pred, false)
+}
+
+// mustDeriveOpt with strict set also refuses conversions, type assertions and re-boxing: the value must be the
+// very value that satisfied pred.
+func (x *Ctx) mustDeriveOpt(v ssa.Value, pred func(ssa.Value) bool, strict bool) bool {
 	seen := map[ssa.Value]bool{}
 	var walk func(v ssa.Value, depth int) bool
 	walk = func(v ssa.Value, depth int) bool {
@@ -365,15 +371,15 @@ func (x *Ctx) mustDerive(v ssa.Value, pred func(ssa.Value) bool) bool {
 		case *ssa.Extract:
 			return walk(y.Tuple, depth)
 		case *ssa.ChangeType:
-			return walk(y.X, depth)
+			return !strict && walk(y.X, depth)
 		case *ssa.Convert:
-			return walk(y.X, depth)
+			return !strict && walk(y.X, depth)
 		case *ssa.MakeInterface:
-			return walk(y.X, depth)
+			return !strict && walk(y.X, depth)
 		case *ssa.ChangeInterface:
-			return walk(y.X, depth)
+			return !strict && walk(y.X, depth)
 		case *ssa.TypeAssert:
-			return walk(y.X, depth)
+			return !strict && walk(y.X, depth)
 		case *ssa.Parameter:
 			if depth >= 2 {
 				return false
